@@ -116,6 +116,8 @@ def perturb_params(obs, ref, rnd, frac=1.0):
         byval.setdefault(float(v), []).append(k)
     start = 3 if (len(obs['names']) > 2 and obs['names'][2] == 'dy') else 2
     new_args = list(obs['args'][:start])
+    pairs = [(e['src'], e['tgt']) for e in ref.edges]
+    parallel = len(set(pairs)) != len(pairs)
     newval = {}
     n_slots = 0
     for name, a in zip(obs['names'][start:], obs['args'][start:]):
@@ -124,10 +126,17 @@ def perturb_params(obs, ref, rnd, frac=1.0):
             continue
         arr = np.array(a, dtype=np.asarray(a).dtype, copy=True)
         flat = arr.reshape(-1)
+        is_edge_arg = '/in_edge_' in name
         for i in range(flat.size):
             v = float(flat[i])
             keys = byval.get(v)
             if not keys or len(keys) != 1 or v == 1.0 or v == 0.0:
+                continue
+            # edge weights live in in_edge_* arguments only, node parameters never do; merged (summed) weights of
+            # parallel edges cannot be fingerprinted, so weights stay at their declared values in such models
+            if (keys[0][0] == '__w') != is_edge_arg:
+                continue
+            if is_edge_arg and parallel:
                 continue
             if rnd.random() > frac:
                 continue
